@@ -374,3 +374,63 @@ func TestLpLocal(t *testing.T) {
 	}
 	writeMeta("lp_local.meta.json", map[string]any{"executions": 1, "events": n})
 }
+
+// TestLpCong: congestion marking by queue length.  One packet object is sent on a congested face (socket queue over the threshold) and
+// then on an uncongested one, as a forwarding thread does with a packet that has several next hops.  Rule I_C10cong (LpTrace): a frame
+// carries a congestion mark only if the packet came with one or this face is congested; sending does
+// not change the packet it was given.
+func TestLpCong(t *testing.T) {
+	defer watchDriver("TestLpCong")()
+	lpSetup()
+	cfg := core.DefaultConfig()
+	cfg.Core.LogLevel = "FATAL"
+	cfg.Faces.CongestionMarking = true
+	core.LoadConfig(cfg, "")
+	face.Configure()
+	defer func() {
+		cfg.Faces.CongestionMarking = false
+		core.LoadConfig(cfg, "")
+		face.Configure()
+	}()
+	w := newTrace("lp_cong.ndjson")
+	defer w.Close()
+	w.Emit(map[string]any{"ev": "Reset"})
+	rng := rand.New(rand.NewSource(verifSeed()*53 + 1))
+	n := 0
+	for round := 0; round < 6; round++ {
+		opt := face.MakeNDNLPLinkServiceOptions()
+		opt.BaseCongestionMarkingInterval = 0
+		txA, txB := face.NewVerifMemTransport(defn.NonLocal, []int{8800, 1500, 8800}[round%3]), face.NewVerifMemTransport(defn.NonLocal, []int{8800, 8800, 1200}[round%3])
+		txA.Queue = 1 << 22
+		lsA, lsB := face.VerifMakeLinkService(txA, opt), face.VerifMakeLinkService(txB, opt)
+		for i := 0; i < 40; i++ {
+			pkt := makePkt(1000+rng.Intn(7000), byte(i))
+			up := rng.Intn(4) == 0
+			if up {
+				pkt.CongestionMark = utils.IdPtr(uint64(1))
+			}
+			for k, ls := range []*face.NDNLPLinkService{lsA, lsB} {
+				tx := []*face.VerifMemTransport{txA, txB}[k]
+				tx.Frames = nil
+				before := pkt.CongestionMark
+				row := map[string]any{"ev": "cong", "congested": tx.Queue > 0, "up": up}
+				func() {
+					defer func() {
+						if r := recover(); r != nil {
+							row["panic"] = fmt.Sprint(r)
+						}
+					}()
+					face.VerifSendPacket(ls, dispatch.OutPkt{Pkt: pkt, PitToken: []byte{0, 0, 1, 2, 3, 4}})
+				}()
+				marks := []bool{}
+				for _, fr := range tx.Frames {
+					marks = append(marks, lpDecode(fr)["mark"].(bool))
+				}
+				row["marks"], row["mutated"] = marks, pkt.CongestionMark != before
+				w.Emit(row)
+				n++
+			}
+		}
+	}
+	writeMeta("lp_cong.meta.json", map[string]any{"executions": 1, "events": n})
+}
